@@ -49,6 +49,27 @@ func extractionSchema(client bool) *Schema {
 	addMessage(f, message("NoteList", withOpt(repeated(msgField("items", ".ext.v1.Note")), "sebuf.http.unwrap", true)))
 	addMessage(f, message("Counter", withOpt(field("n", "int64"), "sebuf.http.int64_encoding", "INT64_ENCODING_NUMBER"),
 		withOpt(field("u", "uint64"), "sebuf.http.int64_encoding", "INT64_ENCODING_NUMBER"), field("label", "string")))
+	// timestamp formats, bytes encodings and nullable primitives: one field per documented variant next to an
+	// un-annotated field of the same type (C04/C05 codec contracts)
+	ts := ".google.protobuf.Timestamp"
+	addMessage(f, message("Stamp",
+		withOpt(msgField("secs", ts), "sebuf.http.timestamp_format", "TIMESTAMP_FORMAT_UNIX_SECONDS"),
+		withOpt(msgField("millis", ts), "sebuf.http.timestamp_format", "TIMESTAMP_FORMAT_UNIX_MILLIS"),
+		withOpt(msgField("day", ts), "sebuf.http.timestamp_format", "TIMESTAMP_FORMAT_DATE"),
+		msgField("plain", ts), field("label", "string")))
+	// (two messages of two annotated fields each: a decoder with n rewritten keys has 4^n paths)
+	addMessage(f, message("Blob",
+		withOpt(field("std_raw", "bytes"), "sebuf.http.bytes_encoding", "BYTES_ENCODING_BASE64_RAW"),
+		withOpt(field("url", "bytes"), "sebuf.http.bytes_encoding", "BYTES_ENCODING_BASE64URL"),
+		field("plain", "bytes"), field("label", "string")))
+	addMessage(f, message("BlobB",
+		withOpt(field("url_raw", "bytes"), "sebuf.http.bytes_encoding", "BYTES_ENCODING_BASE64URL_RAW"),
+		withOpt(field("hex", "bytes"), "sebuf.http.bytes_encoding", "BYTES_ENCODING_HEX"),
+		field("plain", "bytes")))
+	profile := message("Profile", optionalField(withOpt(field("nick", "string"), "sebuf.http.nullable", true), 0),
+		optionalField(withOpt(field("age", "int32"), "sebuf.http.nullable", true), 1), field("label", "string"))
+	profile["oneof_decl"] = []any{M{"name": "_nick"}, M{"name": "_age"}}
+	addMessage(f, profile)
 	hdr := func(name, typ, format string, required bool) M {
 		h := M{"name": name, "type": typ, "required": required}
 		if format != "" {
